@@ -65,9 +65,10 @@ def literal_guard(path, functions, baseline):
         got = _int_literals(nodes[name], module_ints)
         want = baseline.get(name, {})
         if got != want:
-            new = {k: v for k, v in got.items() if want.get(k, 0) != v}
+            new = {k: (want.get(k, 0), got.get(k, 0)) for k in sorted(set(got) | set(want))
+                   if want.get(k, 0) != got.get(k, 0)}
             raise TranslatorUnsupported(
-                f"{path}: integer literals > 3 in `{name}` changed: now {got}, recorded {want} (changed: {new}). "
+                f"{path}: integer literals > 3 in `{name}` changed: now {got}, recorded {want} (literal: (recorded, now) = {new}). "
                 "An integer that can act as a block size / stride / slice bound is not crossed by the instance "
                 "sizes n_grains = 1, 2, 3: the generic model needs a proof at sizes on both sides of it "
                 "(update the model + baseline in translator/specs_*.py after that)")
